@@ -106,14 +106,14 @@ for ent, fn, props, what in (
     G(name=ent[2:], harness="h_user.c", entry=ent, enforce=[fn], style="legacy", unwind=33, shrink="user.c", cbmc_flags=["--no-array-field-sensitivity"], props=props, min_obl=5, cost=20, timeout=600, what=what)
 
 SRV_FLAGS = ["--no-array-field-sensitivity"]
-SRV_SHRINK = dict(shrink="iodined.c", shrink_set="payload64")
+SRV_SHRINK = dict(shrink="iodined.c", shrink_set="payload64", rss_gb=4)
 for uc in (0, 1):
     G(name="srv_check_user_u%d" % uc, harness="h_iodined.c", entry="h_check_user", defs=["H_UID_CASE=%d" % uc], enforce=["check_user_and_ip", "check_authenticated_user_and_ip", "check_authenticated_user_and_ip_and_options"],
       style="legacy", unwind=17, cbmc_flags=SRV_FLAGS, props={"C03": "all", "C04": "all", "C05": "safety"}, min_obl=10, timeout=600, cost=60, mem_gb=24, **SRV_SHRINK,
       what="check_user_and_ip family == the statement's predicate (live, not expired, own source with -c, logged in, options unlocked), both directions, userid case %s" % ("literal 0" if uc == 0 else "any other value"))
     for cmd in "SONIR":
         G(name="srv_cmd_%s_u%d" % (cmd, uc), harness="h_iodined.c", entry="h_cmd_guarded", defs=["H_UID_CASE=%d" % uc, "H_CMD='%s'" % cmd, "STUB_HELPERS=1"], enforce=["handle_null_request"],
-          style="legacy", unwind=31, unwindset=(["handle_null_request.3:2047"] if cmd == "R" else []), cbmc_flags=SRV_FLAGS, props={"C03": "all", "C04": "all", "C05": "safety", "C15": "all", "C14": "all"}, min_obl=10, timeout=900, cost=200, mem_gb=24, **SRV_SHRINK,
+          style="legacy", unwind=33, unwindset=(["handle_null_request.3:2047"] if cmd == "R" else []), cbmc_flags=SRV_FLAGS, props={"C03": "all", "C04": "all", "C05": "safety", "C15": "all", "C14": "all"}, min_obl=10, timeout=900, cost=200, mem_gb=24, **SRV_SHRINK,
           what="handle_null_request, command %s (either letter case), userid case %s: no setting changes / BADIP only unless the named session is live, from its own source and logged in; at most one answer; no tun write; SESSION_WF preserved" % (cmd, "literal 0" if uc == 0 else "any other value"))
 
 for ent, fns, props, what in (
@@ -137,9 +137,40 @@ for uc in (0, 1):
 
 for cmd, nm in (("P", "ping"), ("D", "data")):
     for uc in (0, 1):
-        G(name="srv_cmd_%s_u%d" % (nm, uc), harness="h_iodined.c", entry="h_cmd_stream", defs=["H_CMD='%s'" % cmd, "H_UID_CASE=%d" % uc, "STUB_HELPERS=1", "STUB_CONTRACTS=1"], enforce=["handle_null_request"],
+        G(name="srv_cmd_%s_u%d" % (nm, uc), harness="h_iodined.c", entry="h_cmd_stream", defs=["H_CMD='%s'" % cmd, "H_UID_CASE=%d" % uc, "STUB_HELPERS=1", "STUB_CONTRACTS=1"] + (["STUB_CHECKS=1"] if uc else []), enforce=["handle_null_request"],
           style="legacy", unwind=33, cbmc_flags=SRV_FLAGS, props={"C03": "all", "C04": "all", "C05": "safety", "C14": "all", "C16": "all", "C01": "all"}, min_obl=10, timeout=900, cost=300, mem_gb=24,
           what="handle_null_request, %s (userid case %d), stream helpers replaced by their contracts: token accounting (answers + held <= received + held before), id 0 ignored, nothing without a live authenticated session, cache/qmem hit touches nothing, at most one delivery, SESSION_WF preserved, every send_chunk_or_dataless call site has id != 0" % (nm, uc), **SRV_SHRINK)
+
+# ---- encoding.c (C08) --------------------------------------------------------------------------
+G(name="enc_dotify", harness="h_encoding.c", entry="h_dotify", style="legacy", enforce=["inline_dotify"], loops="encoding.inv", loop_fns=["inline_dotify"],
+  props={"C08": "all", "C05": "safety", "C06": "safety", "C09": "all"}, min_obl=20, timeout=600, cost=60,
+  what="inline_dotify, every string length: character i moves to i + i/57, dots at 57 + 58 m, result e + e/57, nothing behind the terminator written (loop contract, ghost indices)")
+G(name="enc_undotify", harness="h_encoding.c", entry="h_undotify", style="legacy", enforce=["inline_undotify"], loops="encoding.inv", loop_fns=["inline_undotify"],
+  props={"C08": "all", "C05": "safety"}, min_obl=10, timeout=600, cost=30,
+  what="inline_undotify on a buffer of exactly len bytes, every len <= 65536: no access outside, result in 0..len, no dot remains (loop contract)")
+G(name="enc_undotify_exh", harness="h_encoding.c", entry="h_undotify_exh", defs=["UNDOT_EXH=64"], style="legacy", enforce=["inline_undotify"], unwind=66, checks=[], cbmc_flags=["--no-standard-checks"], rss_gb=8,
+  props={"C08": "all"}, min_obl=3, timeout=900, cost=200, kind="bounded", bound="text of at most 64 characters",
+  what="inline_undotify == 'remove every dot, keep the order' for every text of at most 64 characters (bounded stand-in for the content clause; length, footprint and no-dot-remains are unbounded in enc_undotify)")
+for bits in (5, 6, 7):
+    G(name="enc_build_hostname_b%d" % bits, harness="h_encoding.c", entry="h_build_hostname", defs=["CBITS=%d" % bits, "STUB_DOTIFY=1"], style="legacy", enforce=["build_hostname"],
+      props={"C08": "all", "C06": "safety"}, min_obl=20, timeout=600, cost=60,
+      what="build_hostname with a %d-bit codec (encoder and inline_dotify replaced by their contracts): for every limit 100..255, domain 3..128 leaving 24, payload 1..65536: reports what the encoder consumed (>= 1), name = dotted text + '.' + domain, within the limit with a 5-character header, 57-character labels" % bits)
+G(name="enc_unpack_data", harness="h_encoding.c", entry="h_unpack_data", style="legacy", enforce=["unpack_data"], loops="encoding.inv", loop_fns=["inline_undotify"],
+  props={"C08": "all", "C05": "safety", "C06": "safety"}, min_obl=10, timeout=600, cost=30,
+  what="unpack_data: undotify in place (unless the codec eats dots), then the codec's decoder on exactly that text into the caller's buffer")
+
+# ---- tun.c (C13, C06) ---------------------------------------------------------------------------
+G(name="tun_setip", harness="h_tun.c", entry="h_tun_setip", style="legacy", enforce=["tun_setip"], loops="tun.inv", loop_fns=["tun_setip"], unwind=70,
+  props={"C13": "all", "C06": "safety"}, min_obl=10, timeout=600, cost=60,
+  what="tun_setip with two arbitrary NUL-terminated 64-byte strings and an arbitrary int from the login reply, inet_addr unconstrained: at system() both addresses are syntactically valid dotted quads, the netmask text is inet_ntoa's, the interface name is local; arithmetic on the peer's netmask width is defined")
+G(name="tun_setmtu", harness="h_tun.c", entry="h_tun_setmtu", style="legacy", enforce=["tun_setmtu"], unwind=70,
+  props={"C13": "all", "C06": "safety"}, min_obl=3, timeout=300, cost=5,
+  what="tun_setmtu for every unsigned value: the command is run only with a decimal in 201..1500")
+
+for uc in (0, 1):
+    G(name="srv_raw_u%d" % uc, harness="h_iodined.c", entry="h_raw_decode", defs=["H_UID_CASE=%d" % uc, "STUB_HELPERS=1", "STUB_CONTRACTS=1", "H_RAW=1"], enforce=["raw_decode", "handle_raw_login", "handle_raw_data", "handle_raw_ping", "send_raw"],
+      style="legacy", unwind=33, cbmc_flags=SRV_FLAGS, props={"C03": "all", "C04": "all", "C05": "safety", "C12": "all", "C19": "all", "C14": "all"}, min_obl=10, timeout=900, cost=200, mem_gb=24,
+      what="raw_decode + handle_raw_login/data/ping + send_raw on a datagram of exactly len bytes (userid case %d): raw login only for a live DNS-authenticated session and only with the response for challenge+1, answered with challenge-1, then rebinding and raw mode; raw data/ping only with DNS and raw login from the bound source; nothing else changes; no DNS answer; no read outside the datagram" % uc, **SRV_SHRINK)
 
 LEVELS = {}
 TRUSTED_BASE = ["CBMC 6.11.0 (goto-cc front end, goto-instrument --dfcc contract instrumentation, symex)",
